@@ -185,12 +185,17 @@ const G: usize = 0;
 fn amt(n: u8) -> usize {
     if n == 7 {
         (u32::MAX as usize).saturating_add(3)
+    } else if n == 6 {
+        // letter 6: the largest request there is (sums of queued requests overflow)
+        usize::MAX
     } else {
         n as usize
     }
 }
 fn code(a: usize) -> u8 {
-    if a > 200 {
+    if a == usize::MAX {
+        206
+    } else if a > 200 {
         207
     } else {
         a as u8
